@@ -1,6 +1,7 @@
 import SeqVerif.Base.Proto
 import SeqVerif.Model.Async
 import SeqVerif.Model.ApiAsync
+import SeqVerif.Model.ProxyAsync
 import SeqVerif.Extracted.C19
 /-!
 Driver for C19.  QPR text: `<ids>/<total>/<hist>/<aggs>` (ids `mid:rid,...`; hist `nil` | `-` | `k=v,...`;
@@ -11,7 +12,7 @@ aggs `nil` | `agg&agg...`, agg = `<notExists>#<bin>+<bin>...`, bin = `<mid>~<hex
                               `fetchPanicsWith` at the interval the code uses: the literal 1, or the request's
                               interval when the re-extracted fact `fetchUsesRequestInterval` says so
 -/
-open SV SV.Proto SV.Merge SV.Async
+open SV SV.Proto SV.Merge SV.Async SV.ProxyAsync
 
 def parseId (s : String) : Option Nat :=
   match s.splitOn ":" with
@@ -75,6 +76,20 @@ def codecAggs (s : String) : Option String :=
 def parseQPR3 (ids total hist : String) : Option QPR := do
   pure { ids := (← parseIds ids), total := (← total.toNat?), hist := (← parseHist hist) }
 
+/-- replica outcome: `n` NotFound, `u` Unavailable, `e` other error, `o<done>=<ids>/<total>/<hist>` -/
+def parseROut (s : String) : Option ROut :=
+  if s = "n" then some .notFound else if s = "u" then some .unavailable else if s = "e" then some .otherErr else
+  match s.splitOn "=" with
+  | tag :: rest =>
+    if tag = "o1" ∨ tag = "o0" then
+      match ("=".intercalate rest).splitOn "/" with
+      | [ids, total, hist] => (parseQPR3 ids total hist).map (ROut.ok (tag = "o1"))
+      | _ => none
+    else none
+  | _ => none
+
+def bitsOf (bs : List Bool) : String := String.join (bs.map fmtBool)
+
 def step (line : String) : String :=
   match fields line with
   | ["codec", q] =>
@@ -97,6 +112,20 @@ def step (line : String) : String :=
         let r := fetchFoldWith hi desc qs
         s!"ok {fmtIds r.ids}/{r.total}/{fmtHist r.hist}/nil"
     | _, _, _ => "bad-op"
+  | ["pfetch", desc, size, hi, shards] =>
+    match bool? desc, size.toNat?, hi.toNat?, (shards.splitOn "|").mapM (fun sh => (sh.splitOn "+").mapM parseROut) with
+    | some desc, some size, some hi, some shs =>
+      match proxyFetch desc size hi shs with
+      | .ok done q => s!"ok {fmtBool done} {fmtIds q.ids}/{q.total}/{fmtHist q.hist}"
+      | .notFound => "err not-found"
+      | .error => "err fail"
+    | _, _, _, _ => "bad-op"
+  | ["pstart", shards] =>
+    match (shards.splitOn "|").mapM (fun sh => sh.toList.mapM (fun c => if c = '1' then some true else if c = '0' then some false else none)) with
+    | some shs =>
+      let r := proxyStart shs
+      s!"{if r.2 then "ok" else "err"} {"|".intercalate (r.1.map bitsOf)}"
+    | none => "bad-op"
   | ["asyncparams", from_, to_, iv, order] =>
     match from_.toInt?, to_.toInt?, iv.toInt?, order.toInt? with
     | some from_, some to_, some iv, some order =>
